@@ -11,7 +11,7 @@
     first token of the set and the store ends as it started; if that token is the last
     deliverable one the search fails and the flag stays set - [C12_stale_flag_refuted] shows on the
     model what that does to a later invocation (recorded finding C12-recover-after-stale-flag). *)
-From Tephra Require Import MetricsSpec CLexer LexerFacts Run Peg RunCore RunRecover.
+From Tephra Require Import MetricsSpec CLexer LexerFacts Run Peg RunCore RunRecover RunScope.
 
 Theorem C12_recover_before_resumes_at_first :
   forall m, 1 <= tabw m -> forall t, wf_text t ->
@@ -61,6 +61,29 @@ Theorem C12_advance_after :
   end.
 Proof. exact recover_after_spec. Qed.
 Print Assumptions C12_advance_after.
+
+Theorem C12_recover_after_resumes_behind_first :
+  forall m, 1 <= tabw m -> forall t, wf_text t ->
+  forall f id ks a lx ys c st e st1, Inv m t lx ys ->
+  run f a lx c st = (RErr e, st1) -> has_sink c = true -> is_found st1 id = false ->
+  let st2 := st_log st1 (log st1 ++ [apply_trail (trail c) e]) in
+  match find_first ks (kept (c_filter lx) ys) with
+  | Some (_, x, y :: rest) =>
+    exists lx' ys', run (S f) (GRecoverDef (id, RAfter ks) a) lx c st = (ROk VDflt lx', st2)
+      /\ Inv m t lx' ys' /\ c_filter lx' = c_filter lx /\ kept (c_filter lx) ys' = y :: rest
+  | Some (_, x, []) => run (S f) (GRecoverDef (id, RAfter ks) a) lx c st = (RErr ERecover, set_found st2 id)
+  | None => run (S f) (GRecoverDef (id, RAfter ks) a) lx c st = (RErr ERecover, st2)
+  end.
+Proof. exact recover_default_after. Qed.
+Print Assumptions C12_recover_after_resumes_behind_first.
+
+(** a subsequent successful stabilising parse clears the recovering state *)
+Theorem C12_stabilize_clears_recover_state :
+  forall f a lx c st v lx' st',
+  run f a lx c st = (ROk v lx', st') -> f <> 0 ->
+  run (S f) (GStabilize a) lx c st = (ROk v (set_rec lx' None), st').
+Proof. exact stabilize_ok_clears. Qed.
+Print Assumptions C12_stabilize_clears_recover_state.
 
 Theorem C12_no_sink_returns_error :
   forall f r a lx c st e st1,
